@@ -205,7 +205,8 @@ SetItem(m, p, node) ==
     \* No node is ever twice inside one tree: a map with stale places below it is not assigned anywhere.
     /\ node # Root /\ node # m /\ (node \in M => m \notin Sub(node))
     /\ (node \in M => \A t \in stale : t[1] \notin Sub(node))
-    /\ (~Held(node) \/ Again \/ Moved(m, node))             \* (cheap: spares the walk)
+    \* (IF, not \/: TLC would follow every true disjunct of an action and produce the same successor again)
+    /\ IF Held(node) /\ ~Again THEN Moved(m, node) ELSE TRUE      \* (cheap: spares the walk)
     /\ LET w == Walk([mp |-> maps, ly |-> layers, pa |-> parent, ky |-> key, ab |-> abs], m, m, Front(p), {m, node})
            t == w.t
            tg == w.tgt
@@ -215,11 +216,9 @@ SetItem(m, p, node) ==
            ly2 == IF node \in M THEN PopHandle(t.ly, tg, l) ELSE [t.ly EXCEPT ![tg][1] = Put(@, l, node)]
        IN /\ tg # None
           /\ (node \in M => tg \notin Sub(node))
-          /\ \/ ~Held(node)
-             \/ Moved(m, node)
-             \/ /\ Again
-                /\ \A pl \in M \X Names : PlaceIn(mp2, ly2, <<pl[1], pl[2], node>>) =>
-                                              pl = <<tg, l>> \/ <<pl[1], pl[2], node>> \in stale
+          /\ IF ~Held(node) THEN TRUE ELSE IF Moved(m, node) THEN TRUE
+             ELSE Again /\ \A pl \in M \X Names : PlaceIn(mp2, ly2, <<pl[1], pl[2], node>>) =>
+                                                     pl = <<tg, l>> \/ <<pl[1], pl[2], node>> \in stale
           /\ maps' = mp2 /\ layers' = ly2
           /\ parent' = Forget([t.pa EXCEPT ![node] = tg], mp2, ly2)
           /\ key' = Forget([t.ky EXCEPT ![node] = l], mp2, ly2)
